@@ -1,12 +1,42 @@
 # C19 — value semantics and allocator hygiene
 #
-# (mutation list: see the end of this file)
+# Families:
+#   ledger   kll_sketch<Item>, update_tuple_sketch<Item> (= theta_update_sketch_base with a payload), frequent_items_sketch<Item>
+#            with the tracking allocator vl::talloc and the instrumented vl::Item (harness/ledger_track.hpp) against the
+#            extracted Coq machine coq/LedgerDefs.v: after every operation live item count, total slots of live item buffers
+#            and the hygiene flags are compared EXACTLY with what the model's effect ledger says.
+#   vsem     value-semantics scripts on the implementation alone (all ten sketch kinds): differential TESTING with sanitizers.
+#   ebmerge  (extra) ebpps_sketch::merge(const&) with user allocator/item: compile + run harness/drv_ledger_eb.cpp.
+#
+# Mutations confirmed caught (scratch worktree /tmp/wt_ledger = /repo + fixes/19_*.patch + fixes/03_self_assign.patch, VERIF_REPO):
+#   see MUTATIONS at the end of this file.
 PROP = "C19"
-READY = False
+READY = True
 COQ_PROPS = ['Properties_C19']
-RULE = ''
-TRUSTED = []
-ASSUMPTIONS = []
+RULE = ('[ledger] operation scripts over 5 registers holding kll_sketch<Item> (k in 8..200), update_tuple_sketch<Item> (lg_k 5/6, all resize factors) '
+        'or frequent_items_sketch<Item> (lg_max 3..7, all start sizes): bursts of updates sized to cross KLL compactions/buffer growth, theta resize/rebuild '
+        'and frequent-items resize/purge; copy construction, move construction, copy assignment incl. self-assignment, move assignment incl. self-move, '
+        'merge by reference and by move (moved-from objects are then destroyed or assigned to within the same operation), a = b = c, reset/trim, '
+        'query on a temporary copy, destruction, refused configurations and invalid register uses; every case ends with "destroy all". '
+        'non-trivial = every case (each has at least one lifecycle operation besides construction). '
+        '[vsem] the same lifecycle grammar over all ten sketch kinds (kll, tuple, fi, req, var_opt, quantiles, ebpps, hll, cpc, theta) with a digest '
+        '(hash of the serialized image) after each copy/move/assignment and again after mutating one side; one case in three arms the item copy '
+        'constructor to throw at the n-th copy inside a copy construction / copy assignment / update / merge / chain; dedicated hll cases for self-assignment '
+        'and assignment to a moved-from sketch')
+TRUSTED = ['effect-ledger models coq/LedgerKll.v, LedgerTup.v, LedgerFi.v written by hand from kll_sketch_impl.hpp / kll_helper_impl.hpp, '
+           'theta_update_sketch_base_impl.hpp and reverse_purge_hash_map_impl.hpp (sizes and constructed sets only, no item values); tied to the code by the '
+           'exact comparison of live items / live item-buffer slots / flags after every operation of every generated script',
+           'hash values (theta compute_hash, fmix64 of the item hash) are read from the implementation and passed to the model (theorems hold for ANY values)',
+           'theta/tuple table: physical slot positions are canonicalised in the model (compact prefix); only counts, sizes and block identity are modelled',
+           'instrumentation harness/ledger_track.hpp (tracking allocator with arenas, instrumented item with an address registry) and ASan/LSan/UBSan',
+           'the value-semantics part (family vsem) and everything about exceptions is differential TESTING with sanitizers, not proof']
+ASSUMPTIONS = ['KLL merge, frequent-items resize/purge/iteration: the theorems allow the model outcome Abort (a postcondition the C++ relies on without checking: '
+               'general_compress returns no more items than capacity and at most ub levels; re-insertion into the doubled map succeeds; a purge brings the map below '
+               'capacity; the map iterator yields active slots). Abort raises the flag in the model and was never observed in the correspondence runs; '
+               'the KLL space bound is proved for the value-level model in coq/KllSpace.v (C07)',
+               'num_levels <= 61, frequent-items tables <= 2^12 slots in the harness, n < 2^64',
+               'aliasing, use-after-free, leaks and out-of-bounds accesses of the compiled C++ are run-time facts: observed by the sanitizers and the '
+               'instrumentation on the generated scripts (testing), not proved']
 
 FLAG_NAMES = {1: 'double_destroy', 2: 'construct_over_live', 4: 'use_of_destroyed', 8: 'read_of_moved_from', 16: 'dealloc_size_mismatch',
               32: 'dealloc_unknown_block', 64: 'dealloc_other_arena', 128: 'default_allocator_used', 256: 'dealloc_with_live_items'}
@@ -32,7 +62,7 @@ def upd(rng, kind, r, universe):
     return [2, r, rng.randrange(universe), rng.choice([0, 1, 1, 1, 2, 3, 5, 9]), rng.randrange(2)]
 
 def gen_ledger(rng, tier):
-    ncases = 90 if tier == 'quick' else 900
+    ncases = 90 if tier == 'quick' else 360
     cases = []
     for ci in range(ncases):
         kind = ci % 3
@@ -177,7 +207,7 @@ def vs_update(rng, kind, r, universe):
     return [2, r, rng.randrange(universe), rng.choice([1, 1, 2, 3, 7]), rng.randrange(2)]
 
 def gen_vsem(rng, tier):
-    ncases = 140 if tier == 'quick' else 1400
+    ncases = 140 if tier == 'quick' else 560
     cases = []
     for ci in range(ncases):
         kind = ci % 10
@@ -453,4 +483,26 @@ def extra(chk):
     else:
         chk.cov['traces_validated_against_impl'] += 1
 
-MANIFEST = dict(level_text='', level_note='', design_ref='DESIGN.md section 5 C19')
+MANIFEST = dict(
+    level_text=('Theorems (coq/Properties_C19.v, 17, axiom-free) about the effect-ledger machine coq/LedgerDefs.v that is extracted and run against the C++ on every '
+                'check: for ANY script of lifecycle operations (construct, update, copy, move, copy-/move-assignment incl. self-assignment and self-move, merge by '
+                'reference / by move, a = b = c, reset, trim, destroy, destroy all) over registers holding the modelled hand-managed buffers — KLL items_, the theta/tuple '
+                'hash table entries_, the frequent-items keys_/values_/states_ triple — and for ANY hash values: every allocate/deallocate/placement-new/destructor '
+                'effect the model emits is accepted by the ledger judge (accepted = release with the size of the allocation, of a live block holding no constructed '
+                'slot; construction only over unconstructed slots inside a live block; destruction/read only of constructed slots — C19_accepted_*), so the hygiene flag '
+                'of every step is 0 unless the model reached an Abort outcome; at rest each register\'s ledger is exactly its buffers with exactly the slots its counters '
+                'imply constructed (live items = retained items, + min/max for KLL); "destroy all" leaves no live block and no live item. The model is tied to '
+                'kll_sketch_impl.hpp / kll_helper_impl.hpp / theta_update_sketch_base_impl.hpp / reverse_purge_hash_map_impl.hpp by running both on the same generated '
+                'scripts with a tracking allocator and an instrumented item type under ASan/LSan/UBSan and comparing live item count, live item-buffer slots and '
+                'hygiene flags exactly after every operation.'),
+    level_note=('PROVED (all scripts, all hash values): the bookkeeping above, for the three modelled families only. COMPARED with the code on generated scripts (testing, not '
+                'proof): that the model\'s counts are the code\'s (live items, item-buffer slots), allocator hygiene flags (size mismatch, double free, foreign arena, '
+                'default-constructed allocator, release with live items) and item hygiene (double destroy, construct over live, use of destroyed / moved-from). TESTED only '
+                '(family vsem, sanitizers): value semantics of all ten sketch kinds — copies equal and independent, moves transfer the state and leave the source '
+                'destructible and assignable, chains, self-assignment, self-move, merge(std::move) — and behaviour when the item copy constructor throws. NOT claimed: '
+                'REQ, var_opt, quantiles, ebpps, HLL, CPC buffers have no ledger model; theta slot positions are canonicalised; the Abort outcomes (KLL general_compress space '
+                'bound — proved separately in coq/KllSpace.v for C07 —, frequent-items resize/purge/iterator consistency) are assumed unreachable, never observed; absence of '
+                'leaks / use-after-free / aliasing in the compiled C++ beyond the sampled scripts. Known findings are listed in known_findings.json (hll assignment x2, '
+                'ebpps merge with user allocator, optional::emplace, sorted-view release through the wrong allocator x3, exception safety of copy constructors / update / merge).'),
+    design_ref='DESIGN.md section 5 C19, section 7')
+
